@@ -8,6 +8,7 @@ from cfg import CFG
 from mirq import Flow
 from kernel import Interp, NotKernel, Panic, inputs_of, ev, select, show, freeze
 from report import nf_hash
+from e2 import fields_read
 
 _spec = importlib.util.spec_from_file_location("kernels", os.path.join(os.path.dirname(__file__), "..", "..", "spec", "kernels.py"))
 K = importlib.util.module_from_spec(_spec)
@@ -529,6 +530,20 @@ def check_retain(chk, fb, rid, adt, trait, d, covered, fields, memo):
     for f, sites in sorted(covered.items()):
         for bd, bi, t in sites:
             if bd != d:
+                # the shift sits in a closure: if that closure is the predicate of a retain / retain_mut on the field, the
+                # band test must look at the element BEFORE it is shifted
+                cb = fb.mir.get(bd)
+                if cb and cb["kind"] == "Closure":
+                    used_by_retain = False
+                    for rb, rt in fl.calls(lambda x: x.get("fn", "").split("::")[-1] in ("retain", "retain_mut")):
+                        if any(x[0] == "cfn" and x[1] == bd for a in rt["args"][1:] for x in fl.atoms(a)):
+                            used_by_retain = True
+                    if used_by_retain:
+                        ccfg = CFG(cb)
+                        preds = [ci for ci, ct in fb.calls_in(cb) if method_role(ct.get("orig", ct.get("fn", "")).split("::")[-1]) == "band"]
+                        ok = bool(preds) and all(ccfg.dominates(p_, bi) and p_ != bi for p_ in preds[:1])
+                        chk.ob(rid, "%s.%s:retain-before-shift" % (adt.split("::")[-1], f), ok, where="%s:%s" % (cb["file"], t["ln"]),
+                               detail="element is shifted inside the retain predicate; the band test %s" % ("comes first" if ok else "comes AFTER the shift (or is missing): it looks at the already shifted position, so elements next to the band are dropped and elements in it survive"))
                 continue
             at = fl.atoms(t["args"][0])
             if not any(a[0] == "call" and "Iterator" in a[1] and a[1].endswith("::next") for a in at):
@@ -998,6 +1013,24 @@ def rule_keyed_rows(chk, fb):
         chk.ob(r, "%s" % d.split("::", 2)[-1], ok, where=fb.loc(d), detail="entries are shifted at %d site(s); %s" % (len(shifts), "the map is rebuilt afterwards on every path" if ok else "on some path the map keeps its old keys (settings stay reachable under their old row numbers)"))
 
 
+def rule_band_position(chk, fb):
+    r = chk.rule(
+        "C07.c.pos",
+        "an object lies in the removed band iff its own cell/row/column/range does: the band predicate of the listed objects (spec/kernels.py POSITION_FIELDS) reads exactly the field that attaches the object to the grid",
+        floor=4,
+    )
+    for adt, want in sorted(K.POSITION_FIELDS.items()):
+        preds = [d for d, b in fb.mir.items() if b.get("self_ty") == adt and d.split("::")[-1] in ("is_remove_coordinate", "is_remove_value", "is_remove_coordinate_with_sheet")]
+        if not preds:
+            chk.ob(r, adt.split("::")[-1], False, detail="no band predicate found")
+            continue
+        for d in preds:
+            read = fields_read(fb, d, adt)
+            chk.touch(d)
+            chk.ob(r, "%s::%s" % (adt.split("::")[-1], d.split("::")[-1]), read == want, where=fb.loc(d),
+                   detail="predicate reads %s; the object's position is %s%s" % (sorted(read), sorted(want), "" if read == want else " - an object whose cell lies outside the band can be deleted (or one inside kept)"))
+
+
 def run(chk, fb, tier):
     rule_scalar(chk, fb)
     rule_range(chk, fb, tier)
@@ -1008,6 +1041,7 @@ def run(chk, fb, tier):
     rule_move_clear(chk, fb)
     rule_replace_cell(chk, fb)
     rule_keyed_rows(chk, fb)
+    rule_band_position(chk, fb)
     rule_unconditional(chk, fb)
     chk.assume("std collections (ThinVec/Vec retain, iteration) behave as documented")
     chk.note("not decided: equality with a reference grid after arbitrary histories (value-level)")
